@@ -389,7 +389,7 @@ class Case:
 
 def run_case(rep: Report, prop, qual, name, setup, post, *, contracts=None, loop_rules=None, lib=None,
              scope="all-shapes", replay=None, timeout_s=10.0, expect="return", inline=(), clauses=None,
-             site_obligations=True, max_paths=400, loop_end=False):
+             site_obligations=True, max_paths=400, loop_end=False, algebra=False):
     """Symbolically execute `qual` on the inputs built by setup(interp, ctx) over every feasible path.
     post(interp, ctx, outcome, value, aux) yields (clause, status, backend, secs, detail) tuples or
     (clause, nc_a, nc_b) equalities or (clause, z3cond).  A clause is proved iff proved on every path.
@@ -400,6 +400,7 @@ def run_case(rep: Report, prop, qual, name, setup, post, *, contracts=None, loop
     case = Case(rep, prop, qual, name, scope)
     lib = lib or Library()
     ctx = Ctx(name=f"{qual}[{name}]", timeout_s=timeout_s)
+    ctx.use_algebra = algebra
     per_clause = {}
     t0 = time.time()
     reach_error = None
@@ -525,10 +526,37 @@ def _record_clause(per_clause, item, ctx, timeout_s):
         elif z is False:
             st, be, sc, det = smt.REFUTED, "syntactic", 0.0, {"cond": "False"}
         else:
-            v = smt.prove(ctx.hyps(), z, timeout_s)
-            st, be, sc, det = v.status, v.backend, v.secs, ({"model": v.model, "goal": str(z)[:300]} if v.status != smt.PROVED else None)
-            if st == smt.REFUTED and ctx.uncertain:
-                st = smt.UNDECIDED
+            done = False
+            if getattr(ctx, "use_algebra", False):
+                ok, secs = algebra_try(ctx.hyps(), z)
+                if ok:
+                    st, be, sc, det, done = smt.PROVED, "sympy-ideal-reduction", secs, None, True
+            if not done:
+                v = smt.prove(ctx.hyps(), z, timeout_s)
+                st, be, sc, det = v.status, v.backend, v.secs, ({"model": v.model, "goal": str(z)[:300]} if v.status != smt.PROVED else None)
+                if st == smt.REFUTED and ctx.uncertain:
+                    st = smt.UNDECIDED
     else:
         raise ValueError(f"bad clause item {item!r}")
     per_clause.setdefault(clause, []).append((st, be, sc, det))
+
+
+def algebra_try(hyps, z):
+    """Try to prove a conjunction of real equalities by computer algebra (qv/alg.py)."""
+    import z3
+    from . import alg
+    goals = list(z.children()) if z3.is_and(z) else [z]
+    total = 0.0
+    for g in goals:
+        if z3.is_true(g):
+            continue
+        if not z3.is_eq(g):
+            return False, total
+        l, r = g.children()
+        if l.sort() != z3.RealSort():
+            return False, total
+        ok, secs = alg.prove_identity(hyps, l, r)
+        total += secs
+        if not ok:
+            return False, total
+    return True, total
